@@ -721,6 +721,8 @@ def scenarios(pid, tier):
             # the pool is closed while an idle connection is being closed and further requests arrive: the limit holds throughout
             out.append(S("h11", ["req:a:w", "closepool:a", "req:b:late", "req:c:late"], max_connections=1, probe=False))
         if pid in ("C04", "C07"):
+            # establishment of a multiplexing-capable proxied connection cancelled at every point, then another request for the same origin
+            out.append(S("socks-h2", ["req:a:v", "req:a:late"], max_connections=1, cancels=1, styles=["scope", "native"], early=False))
             out.append(S("socks-h2", ["req:a", "req:a"], max_connections=1, early=False))
             out.append(S("socks-h2", ["req:a", "req:a", "req:b"], max_connections=1, early=False))
         if pid == "C07":
@@ -820,6 +822,10 @@ def scenarios(pid, tier):
         for ct in (["h2pk"] if quick else ["h2pk", "h2alpn"]):
             out.append(S(ct, ["req:a:w", "req:a:v", "req:a"], max_connections=1, cancels=1, styles=["scope", "native"],
                          h2script={"frag": 2}, early=False))
+        # an upload parked on an exhausted window is reset by the server; with a stream limit of one the next request needs its slot
+        for ct in (["h2pk"] if quick else ["h2pk", "h2alpn"]):
+            out.append(S(ct, ["req:a:w", "up9:a", "req:a"], max_connections=1, h2cfg={"window_policy": "manual", "initial_window": 4, "max_streams": 1},
+                         h2script={"rst": 1, "wu": [], "wu_budget": 0}, early=False))
         # a stream abandoned by a cancelled caller whose trace callback suspends must give its slot back (limit 1: the next one needs it)
         for ct in (["h2pk"] if quick else ["h2pk", "h2alpn"]):
             out.append(S(ct, ["req:a:w", "req:a:v", "req:a"], max_connections=1, cancels=1, styles=["scope"], trace=True,
